@@ -19,6 +19,21 @@ CLAIMS = {
   note=TB + "Scope F15: integral bounds with |b| <= 2^53 (beyond that float64 rounding absorbs the +-1 adjustments; skipped and counted). min-sized-ints combined with anyOf is outside the model (pointer aliasing of branch nodes) and reported as unsupported.",
   technique="Lean 4 theorems over Int (omega) with a proved Rat-to-Int bridge + function-level and flag-on/flag-off program-level correspondence",
   ref="§3 C15"),
+ "C06": dict(
+  text="Theorems (all strings, all limits, all patterns of the closed family): on ASCII strings Go's byte length is the character count (ascii_bytes_eq_length) and the emitted test accepts exactly the strings within [minLength,maxLength] that match the pattern (string_check_exact_ascii); pattern-only constraints need no ASCII hypothesis; a nil pointer (absent/null optional string) is never checked; a present value always is. The unrestricted statement is false of the code (KF_bytes_counterexample, known finding K1: bytes, not characters). Tie: freshly generated and compiled programs, one string field in five positions, on boundary-length ASCII and multi-byte documents and on matching/non-matching text.",
+  note=TB + "Scope F06: ASCII documents when a length keyword is present; patterns from the closed family of DESIGN §1.2 (regexp itself is trusted). Known findings: K1 (bytes), format-typed strings and nullable definitions drop the constraints.",
+  technique="Lean 4 theorems over String/Int + sampled program-level correspondence with systematic boundary documents",
+  ref="§3 C06"),
+ "C07": dict(
+  text="Theorems (all arrays, all limits): at depth 1 the emitted test is exactly minItems <= len <= maxItems on that array (depth1_exact); a nil slice (absent/null) is never rejected; the validator of depth d+2 applies the validator of depth d+1 to every element with the SAME limits (nested_unfold), hence for two levels acceptance = outer length and every inner length within the outer limits (nested2_uniform) - which is the property when limits are uniform and is false otherwise (KF_nested_limits_counterexample, known finding K2). Tie: generated+compiled programs with arrays of depth 1..3, limits at each level independently, lengths min-1,min,max,max+1 at each level.",
+  note=TB + "Scope F07: limits on depth-1 arrays, or the same limits at every level. Known findings K2 (outer limits used at every depth, inner-only limits ignored, named array definitions and primitive element constraints unchecked) and maxItems 0.",
+  technique="Lean 4 theorems (structural, omega) + sampled program-level correspondence with systematic boundary documents",
+  ref="§3 C07"),
+ "C08": dict(
+  text="Theorems (all value tables, all document values): for the string, float64 and bool carriers the emitted DeepEqual loop is JSON equality with a listed value (string/number/bool_enum_membership); for the interface{} carrier of mixed/null enums likewise on the JSON path (mixed_enum_membership_json); an accepted wrapped value marshals back to the bare JSON value and a plain string enum to the same string (wrapped/plain_marshal_roundtrip). Counterexample for integer coercion (KF_integer_fraction_coerces). Tie: generated+compiled programs for every enum shape x position (inline required/optional, array item, typed $ref, with default) x members and non-members of every JSON type; constants of string enums read back from the emitted file with go/ast.",
+  note=TB + "Carrier choice (generateEnumType) is modelled and tied by the go/ast summary, not proved. Known findings: K18 (untyped enum via $ref unenforced), colliding constants, integer coercion, typed integer enum under --min-sized-ints rejects everything. null at a non-nullable typed enum follows the null convention of DESIGN §1.3.",
+  technique="Lean 4 theorems about the emitted DeepEqual loop per carrier + sampled program-level correspondence over all enum shapes",
+  ref="§3 C08"),
 }
 NA_PENDING = "check not built yet in this session (work in progress; see DESIGN.md §7)"
 ids = [json.loads(l)["id"] for l in open('/verif/properties.jsonl')]
